@@ -58,11 +58,12 @@ def sweep(tier: str) -> Sweep:
                 o = S.from_value(n)
                 sw.check(o.value == n, "from_value(n) does not have value n", {**case, "clause": "from_value"}, n, o.value)
                 exp = {"%n": str(n), "%b": format(n, f"0{b}b"), "%c": format(n, ","), "%u": format(n, "_")}
-                if n < 10 ** w:
-                    exp["%p"] = str(n).rjust(w, "0")
+                exp["%p"] = str(n).rjust(w, "0")
                 for d, want in exp.items():
                     got = o.format(d)
                     sw.check(got == want, "rendering is not exact", {**case, "clause": "render", "directive": d}, want, got)
+                    if d == "%p" and n >= 10 ** w:
+                        continue   # the zero-padded field reads exactly w digits: a wider rendering is exact but cannot be read back through %p
                     back = S.parse(want, d)
                     sw.check(back.value == n, "parsing a spelling of n does not yield n", {**case, "clause": "parse", "directive": d}, n, back.value)
                 # extra leading zeros where the pattern allows them
